@@ -21,6 +21,15 @@ TOPO_RULE = ("each evaluation is one simulated world: 1-2 topology-preserving la
              "polyline router inside the session) whose invariant is evaluated inside every iteration while a simulated user drags a node (lock at a random pre-iteration call, released later), "
              "resizes a node mid-run and may stop at any iteration; non-trivial = a reach probe fired; distinct = distinct event-log hash")
 PROPS = {
+    "C10": dict(build="plain", runs_quick=30000, budget_quick=45, runs_thorough=400000, budget_thorough=900,
+                rule=ROUTER_RULE + "; C10 scenes: grid of cells with one rectangle each (corridors 20-160 wide), 2-7 orthogonal connectors with free end points, nudging distance 2-10, all nudging option combinations, histories of moves and re-nudging",
+                assumptions=["overlap clause armed only if at least one of the two segments is interior and the free channel around its whole extent is >= (connectors+1) x nudging distance on both sides",
+                             "two end segments on each other are not judged (both fixed); end-point clause only with nudgeOrthogonalSegmentsConnectedToShapes off",
+                             "minimum-distance clause: pairs that shared a path in route() and are separated in displayRoute() are >= distance/10 apart"]),
+    "C11": dict(build="plain", runs_quick=30000, budget_quick=45, runs_thorough=400000, budget_thorough=900,
+                rule=ROUTER_RULE + "; C11 scenes: rectangles carrying side pins (class 1, exclusive, directed), a shared centre pin (class 2) and a quarter/absolute-offset pin (class 3), connectors attached up to pin capacity, checkpoints, histories of moves and resizes",
+                assumptions=["pin positions recomputed by the harness from the documented offset rules on the model polygon", "connectors per (shape, exclusive class) never exceed the number of pins",
+                             "insideOffset 0 on boundary pins is a separate swarm member with its own signature"]),
     "C13": dict(build="plain", runs_quick=20000, budget_quick=45, runs_thorough=400000, budget_thorough=900, rule=TOPO_RULE,
                 assumptions=["harness oracles: interior test with 1e-4 shrink, node overlap 1e-3, path ends, bends on corners turning towards their node; plus the library's own invariant checks as exceptions",
                              "runs whose initial libavoid routes already fail the invariant are not judged (counted)"]),
